@@ -436,6 +436,7 @@ def run():
         from obligations import C01_kani
         C01_kani.add(rep, "C15")
     guarded("diagnostics of a failing transform", lambda: rep.add(diagnostics_obligation(prog, engs, fn)))
+    guarded("ignore files", lambda: ignore_stack_obligation(rep, ctx))
     return rep
 
 
@@ -523,3 +524,47 @@ def called_in_fn(prog, f, pat):
 
 # io::ErrorKind::NotFound is variant 0 of std::io::ErrorKind
 NOTFOUND_IDX = 0
+
+
+def ignore_stack_obligation(rep, ctx):
+    """An ignore file that cannot be loaded affects nothing but itself: IgnoreStack::push returns, on every path (also when loading the
+    nested .gitignore / .fdignore reported an error), a stack that starts with all matchers inherited from the parent directories,
+    in their order, followed by at most one new matcher.  E2 with the stack as a list of two symbolic matchers."""
+    import listsum
+    import summaries
+    prog = ctx.lib
+    f = prog.method("IgnoreStack", "push")
+    extra = dict(optsum.SUMMARIES)
+    extra.update(listsum.LIST)
+
+    def s_arc_asref(e, st, c, a, d):
+        v = summaries.deref_val(e, st, a[0])
+        if isinstance(v, Agg) and v.ty == "Arc":
+            return v.fields[0]
+        return NotImplemented
+    extra[r"^<Arc<.*> as (std::convert::)?AsRef(<.*>)?>::as_ref$"] = s_arc_asref
+    extra[r"^(std::vec::)?Vec::with_capacity$"] = lambda e, st, c, a, d: ListV((), "Vec")
+    eng = oblig.engine(prog, unroll=3, inline=None, extra=extra)
+    items = [Lazy("m0", "Gitignore"), Lazy("m1", "Gitignore")]
+    mem = {"self": Agg("IgnoreStack", {0: Agg("Arc", {0: ListV(items, "Vec")})})}
+    ps = eng.run(f, args=[Ref("self", (), False), Lazy("dir", "path::Path"), None], mem=mem)
+
+    def prop(p):
+        if p.status != "return":
+            return None
+        r = p.result
+        inner = r.fields.get(0) if isinstance(r, Agg) else None
+        lst = inner.fields.get(0) if isinstance(inner, Agg) else inner
+        if isinstance(lst, Ref):
+            st = mirsym.State()
+            st.mem, st.pc = p.mem, list(p.pc)
+            lst = summaries.deref_val(eng, st, lst)
+        if not isinstance(lst, ListV):
+            return z3.BoolVal(False)
+        names = [getattr(x, "name", None) for x in lst.items]
+        return z3.BoolVal(names[:2] == ["m0", "m1"] and len(names) <= 3)
+    o = oblig.check_paths(eng, ps, "IgnoreStack::push: the rules inherited from the parent directories are kept, in order, on every path - also when the nested ignore file fails to load",
+                          prop, oblig.fnames(eng), bounds="stack of two inherited matchers", key="ignore:inherited-rules-kept", allow=("return", "panic", "diverge"))
+    if o.verdict == "violated":
+        replay(o, ctx)
+    rep.add(o)
